@@ -82,6 +82,12 @@ fn run_worker(page_pool: PagePool, command_rx: Receiver<IoPacket>) {
         .expect("Error building io_uring");
 
     let (submitter, mut submit_queue, mut complete_queue) = ring.split();
+    // verification hook: the three halves of the ring behind pass-through wrappers; on a thread that
+    // installed a scripted kernel (`verif::run_scripted_worker`) they talk to that instead.
+    #[cfg(nomt_verif)]
+    #[allow(unused_mut)]
+    let (submitter, mut submit_queue, mut complete_queue) =
+        verif::wrap(submitter, submit_queue, complete_queue);
     let mut retries = VecDeque::<(IoPacket, usize)>::new();
 
     // Indicates whether the worker detected that it should shutdown.
@@ -237,6 +243,240 @@ fn submission_entry(command: &mut IoCommand) -> squeue::Entry {
             opcode::Write::new(types::Fd(fd), page.as_ptr(), PAGE_SIZE as u32)
                 .offset(page_index * PAGE_SIZE as u64)
                 .build()
+        }
+    }
+}
+
+/// Verification hook (compiled only with `--cfg nomt_verif`): the REAL [`run_worker`] over a scripted
+/// kernel. The submitter / submission queue / completion queue of the ring are wrapped; the wrappers
+/// pass every call through to io_uring unless the thread installed a scripted kernel, in which case
+/// every call of the worker into the ring is an event sent to the harness, and the worker continues
+/// only when the harness answers (lock-step): the harness decides which completions are visible at
+/// a `complete_queue.sync()`, their result, the `errno` the thread has when an entry is classified,
+/// and what `submit_and_wait` returns. Nothing here is used by the store itself.
+#[cfg(nomt_verif)]
+pub mod verif {
+    use super::{cqueue, squeue, IoPacket, PagePool, Receiver, RING_CAPACITY};
+    use crossbeam_channel::Sender;
+    use std::cell::RefCell;
+    use std::sync::atomic::{AtomicU64, Ordering};
+
+    /// Number of submission entries the workers of the real pool pushed so far (= attempts).
+    pub static PUSHES: AtomicU64 = AtomicU64::new(0);
+
+    #[derive(Debug, Clone, PartialEq, Eq)]
+    pub enum WorkerEvent {
+        /// `complete_queue.sync()`; answer: `Resume::Cqes`
+        CqSync,
+        /// `submit_queue.push(entry)`: the slab key and what the kernel is asked to do
+        Push {
+            user_data: u64,
+            opcode: u8,
+            fd: i32,
+            off: u64,
+            len: u32,
+        },
+        /// `submitter.submit_and_wait(wait)` with `queued` entries in the submission queue;
+        /// answer: `Resume::Submit`
+        Submit { wait: usize, queued: usize },
+        /// `run_worker` returned
+        Exit,
+        /// `run_worker` panicked
+        Panicked(String),
+    }
+
+    #[derive(Debug, Clone)]
+    pub enum Resume {
+        Go,
+        /// the entries the completion queue shows after this `sync`:
+        /// `(user_data, result, errno of the thread when the entry is classified)`
+        Cqes(Vec<(u64, i32, i32)>),
+        /// `Ok(n)` or `Err(errno)` of `submit_and_wait`
+        Submit(Result<usize, i32>),
+    }
+
+    pub struct Script {
+        pub events: Sender<WorkerEvent>,
+        pub resume: Receiver<Resume>,
+        /// capacity of the scripted submission queue (the real one: `RING_CAPACITY`)
+        pub sq_capacity: usize,
+    }
+
+    pub struct Scripted {
+        script: Script,
+        sq_len: usize,
+        visible: std::collections::VecDeque<(u64, i32, i32)>,
+    }
+
+    thread_local! {
+        static SCRIPT: RefCell<Option<Script>> = RefCell::new(None);
+    }
+
+    pub const REAL_RING_CAPACITY: usize = RING_CAPACITY as usize;
+    pub const REAL_MAX_IN_FLIGHT: usize = super::MAX_IN_FLIGHT;
+
+    /// Run the real `run_worker` on the current thread over the scripted kernel.
+    pub fn run_scripted_worker(page_pool: PagePool, command_rx: Receiver<IoPacket>, script: Script) {
+        let events = script.events.clone();
+        SCRIPT.with(|s| *s.borrow_mut() = Some(script));
+        let r = std::panic::catch_unwind(std::panic::AssertUnwindSafe(|| {
+            super::run_worker(page_pool, command_rx)
+        }));
+        SCRIPT.with(|s| *s.borrow_mut() = None);
+        let _ = events.send(match r {
+            Ok(()) => WorkerEvent::Exit,
+            Err(e) => WorkerEvent::Panicked(
+                e.downcast_ref::<String>()
+                    .cloned()
+                    .or_else(|| e.downcast_ref::<&str>().map(|s| s.to_string()))
+                    .unwrap_or_default(),
+            ),
+        });
+    }
+
+    pub struct Cqe {
+        user_data: u64,
+        result: i32,
+    }
+    impl Cqe {
+        pub fn user_data(&self) -> u64 {
+            self.user_data
+        }
+        pub fn result(&self) -> i32 {
+            self.result
+        }
+    }
+
+    type Shared = std::rc::Rc<RefCell<Scripted>>;
+
+    pub enum Submitter<'a> {
+        Real(io_uring::Submitter<'a>),
+        Scripted(Shared),
+    }
+    pub enum Sq<'a> {
+        Real(io_uring::SubmissionQueue<'a, squeue::Entry>),
+        Scripted(Shared),
+    }
+    pub enum Cq<'a> {
+        Real(io_uring::CompletionQueue<'a, cqueue::Entry>),
+        Scripted(Shared),
+    }
+
+    pub fn wrap<'a>(
+        submitter: io_uring::Submitter<'a>,
+        sq: io_uring::SubmissionQueue<'a, squeue::Entry>,
+        cq: io_uring::CompletionQueue<'a, cqueue::Entry>,
+    ) -> (Submitter<'a>, Sq<'a>, Cq<'a>) {
+        match SCRIPT.with(|s| s.borrow_mut().take()) {
+            None => (Submitter::Real(submitter), Sq::Real(sq), Cq::Real(cq)),
+            Some(script) => {
+                let shared = std::rc::Rc::new(RefCell::new(Scripted {
+                    script,
+                    sq_len: 0,
+                    visible: Default::default(),
+                }));
+                (
+                    Submitter::Scripted(shared.clone()),
+                    Sq::Scripted(shared.clone()),
+                    Cq::Scripted(shared),
+                )
+            }
+        }
+    }
+
+    impl Scripted {
+        fn park(&self, event: WorkerEvent) -> Resume {
+            self.script.events.send(event).expect("harness gone");
+            self.script.resume.recv().expect("harness gone")
+        }
+    }
+
+    impl<'a> Cq<'a> {
+        pub fn sync(&mut self) {
+            match self {
+                Cq::Real(cq) => cq.sync(),
+                Cq::Scripted(s) => {
+                    let r = s.borrow().park(WorkerEvent::CqSync);
+                    if let Resume::Cqes(v) = r {
+                        s.borrow_mut().visible.extend(v);
+                    }
+                }
+            }
+        }
+        pub fn next(&mut self) -> Option<Cqe> {
+            match self {
+                Cq::Real(cq) => Iterator::next(cq).map(|e| Cqe {
+                    user_data: e.user_data(),
+                    result: e.result(),
+                }),
+                Cq::Scripted(s) => {
+                    let (user_data, result, errno) = s.borrow_mut().visible.pop_front()?;
+                    // the errno the worker thread happens to have when it classifies this entry
+                    unsafe { *libc::__errno_location() = errno };
+                    Some(Cqe { user_data, result })
+                }
+            }
+        }
+    }
+
+    impl<'a> Sq<'a> {
+        pub fn sync(&mut self) {
+            if let Sq::Real(sq) = self {
+                sq.sync()
+            }
+        }
+        pub fn is_full(&self) -> bool {
+            match self {
+                Sq::Real(sq) => sq.is_full(),
+                Sq::Scripted(s) => {
+                    let s = s.borrow();
+                    s.sq_len >= s.script.sq_capacity
+                }
+            }
+        }
+        pub unsafe fn push(&mut self, entry: &squeue::Entry) -> Result<(), squeue::PushError> {
+            match self {
+                Sq::Real(sq) => {
+                    PUSHES.fetch_add(1, Ordering::SeqCst);
+                    sq.push(entry)
+                }
+                Sq::Scripted(s) => {
+                    // `io_uring_sqe`: opcode u8, flags u8, ioprio u16, fd i32, off u64, addr u64, len u32, ...
+                    let raw: [u8; 64] = std::mem::transmute_copy(entry);
+                    let event = WorkerEvent::Push {
+                        user_data: entry.get_user_data(),
+                        opcode: raw[0],
+                        fd: i32::from_ne_bytes(raw[4..8].try_into().unwrap()),
+                        off: u64::from_ne_bytes(raw[8..16].try_into().unwrap()),
+                        len: u32::from_ne_bytes(raw[24..28].try_into().unwrap()),
+                    };
+                    s.borrow_mut().sq_len += 1;
+                    s.borrow().park(event);
+                    Ok(())
+                }
+            }
+        }
+    }
+
+    impl<'a> Submitter<'a> {
+        pub fn submit_and_wait(&self, wait: usize) -> std::io::Result<usize> {
+            match self {
+                Submitter::Real(s) => s.submit_and_wait(wait),
+                Submitter::Scripted(s) => {
+                    let queued = s.borrow().sq_len;
+                    let answer = s.borrow().park(WorkerEvent::Submit { wait, queued });
+                    match answer {
+                        Resume::Submit(Err(errno)) => {
+                            unsafe { *libc::__errno_location() = errno };
+                            Err(std::io::Error::from_raw_os_error(errno))
+                        }
+                        _ => {
+                            s.borrow_mut().sq_len = 0;
+                            Ok(queued)
+                        }
+                    }
+                }
+            }
         }
     }
 }
